@@ -85,6 +85,22 @@ Example ex_failing_push_reachable :
   reachable M (init 1 0 ex_progs) s /\ pc (thr s 1) = PSlot /\ buf s (hi (thr s 1) mod size s) <> 0.
 Proof. split; [apply run_sched_reachable; constructor | vm_compute; split; [reflexivity|discriminate]]. Qed.
 
+(* a claim stalled across a lap: thread 0 is stopped between its CAS on low and its clearing store while
+   thread 1 takes the counters once round the ring; thread 1's next push then finds the stalled slot still
+   occupied although high - low = 0 (the state the case family "claim stalled across a lap" drives the real
+   code into), and after its next step it has given up instead of overwriting *)
+Definition lap_progs := [[OPush 4; OPop]; [OPush 6; OPop; OPush 8]].
+Definition lap_state sch := fst (run_sched M (init 1 0 lap_progs) sch).
+Definition lap_sched := [0;0;0;0;0;0;0;0;0; 1;1;1;1;1; 1;1;1;1;1; 1;1].
+Example ex_claim_stalled_across_a_lap :
+  let s := lap_state lap_sched in
+  reachable M (init 1 0 lap_progs) s /\
+  pc (thr s 0) = QClear /\ low s = lo (thr s 0) + size s /\ high s = low s /\
+  pc (thr s 1) = PSlot /\ buf s (hi (thr s 1) mod size s) <> 0 /\
+  buf (lap_state (lap_sched ++ [1])) (hi (thr s 1) mod size s) = buf s (hi (thr s 1) mod size s) /\
+  pc (thr (lap_state (lap_sched ++ [1])) 1) = Fin.
+Proof. split; [apply run_sched_reachable; constructor | vm_compute; repeat split; try reflexivity; discriminate]. Qed.
+
 Example ex_history_nonempty :
   let x := irun (iinit 1 0 ex_progs) [0;0;0;0;0;1;1;1;1;1;0;0;0;0] in
   ireach 1 0 ex_progs x /\ plog x = [5; 7] /\ qlog x = [5].
